@@ -268,7 +268,7 @@ class RealRun(Harness):
         sc = StubConcurrent([0, 1])
         import io, contextlib
         buf = io.StringIO()
-        with AE.patched(M.ssh_audit, concurrent=sc, process_commandline=lambda out, args: aconf), AE.patched(M.ssh_socket, socket=net):
+        with AE.patched(M.ssh_audit, concurrent=sc, json=AE.ConcJson, process_commandline=lambda out, args: aconf), AE.patched(M.ssh_socket, socket=net):
             M.ssh_audit.__dict__['print'] = lambda *a, **k: cap.append((a, k))
             try:
                 with contextlib.redirect_stdout(buf):
@@ -280,15 +280,16 @@ class RealRun(Harness):
             text = text + (a[0] if a else '') + k.get('end', '\n')
         if not isinstance(text, str):
             text = zx.shims.concretize_str(text)
-        js = None
+        js = jt = None
         if self.json:
             try:
                 v = _json.loads(text)
                 js = isinstance(v, list) and len(v) == 2
+                jt = js and [e.get('target') if isinstance(e, dict) else None for e in v] == [h + ':22' for h in hosts]
             except ValueError:
-                js = False
-        return {'ret': r, 'json_ok': js, 'seps': text.count('-' * 80 + '\n'), 'good': 'good' in text or '"target": "good' in text,
-                'bad': ('bad' in text), 'leaked': buf.getvalue() != ''}
+                js = jt = False
+        return {'ret': r, 'json_ok': js, 'json_targets': jt, 'seps': text.count('-' * 80 + '\n'), 'good': 'good' in text or '"target": "good' in text,
+                'bad': ('bad' in text), 'leaked': buf.getvalue() != '', 'traceback': 'Traceback (most recent call last)' in text}
 
     def check(self, inp, obs):
         r = obs['ret']
@@ -297,9 +298,13 @@ class RealRun(Harness):
             return
         if self.json:
             yield 'stdout-is-one-json-array-with-one-element-per-target', obs['json_ok'] is True
+            yield 'each-json-element-names-its-target', obs['json_targets'] is True
         else:
             yield 'two-result-blocks', obs['seps'] == 1 and obs['good']
         yield 'exit-status-ranked-max', r in (1, -1) or (self.bad.startswith('probe-') and r in (0, 2, 3))
+        if self.bad in ('refused', 'unresolvable', 'silent'):
+            # a target that cannot be reached is a connection error (the healthy target here rates below it), reported as such - not an internal error
+            yield 'unreachable-target-is-a-connection-error', r == 1 and not obs['traceback']
         yield 'nothing-printed-outside-the-blocks', not obs['leaked']
 
     def classify(self, inp, obs, label):
